@@ -19,7 +19,26 @@
 (*       its statements in order (Store!ApplySeq)                          *)
 (*  C32  write reports (new / deleted counts) are those of the set model   *)
 (***************************************************************************)
-EXTENDS Store, Auth, Json, IOUtils
+EXTENDS Store, Auth, Page, Datalog, Json, IOUtils
+
+\* ---- C33: conformance of a stored value (exact-kind token) to a declared column
+\* type.  MustAccept: the kind the type names.  MustReject: a kind no documented
+\* coercion maps into the type.  Everything else (int into float, int as bool,
+\* timestamps, vectors, `any`, named types) is left open.
+MustAcceptV(v, ty) ==
+  CASE ty = "int"    -> v[1] \in { "i64", "i32" }
+    [] ty = "string" -> v[1] = "s"
+    [] ty = "float"  -> v[1] = "f"
+    [] ty = "bool"   -> v[1] = "b"
+    [] OTHER -> FALSE
+MustRejectV(v, ty) ==
+  CASE ty = "int"    -> v[1] \in { "s", "b" }
+    [] ty = "string" -> v[1] \in { "i64", "i32", "f", "b" }
+    [] ty = "float"  -> v[1] \in { "s", "b" }
+    [] ty = "bool"   -> v[1] \in { "s", "f" }
+    [] OTHER -> FALSE
+MustAcceptT(x, types) == Len(x) = Len(types) /\ \A i \in DOMAIN types : MustAcceptV(x[i], types[i])
+MustRejectT(x, types) == Len(x) # Len(types) \/ \E i \in DOMAIN types : MustRejectV(x[i], types[i])
 
 Rec == ndJsonDeserialize(IOEnv.TRACE)
 
@@ -68,6 +87,17 @@ InternalChangeOK(id, s, t) ==
 RowVals(rows) == UNION { ToSetS(rows[i]) : i \in DOMAIN rows }
 Leaked(rows, markers) == { g \in DOMAIN markers : RowVals(rows) \cap ToSetS(markers[g]) # {} }
 
+\* reports[i] = <<kind, n1, ...>> parsed from the i-th acknowledgement message;
+\* its first number is the count the set model reports for the i-th statement
+RECURSIVE RepOK(_, _, _, _)
+RepOK(ops, reps, s, i) ==
+  IF i > Len(ops) THEN TRUE
+  ELSE /\ Len(reps[i]) >= 2 /\ reps[i][2] = Reported(ops[i], s)
+       /\ RepOK(ops, reps, Apply(ops[i], s), i + 1)
+RECURSIVE WantReports(_, _, _)
+WantReports(ops, s, i) == IF i > Len(ops) THEN <<>>
+                          ELSE <<Reported(ops[i], s)>> \o WantReports(ops, Apply(ops[i], s), i + 1)
+
 Out(x) == PrintT(ToJson(x))
 Has(R, p) == \E i \in DOMAIN R.req.judge : R.req.judge[i] = p
 
@@ -106,6 +136,55 @@ Step == /\ l <= Len(Rec) /\ Rec[l].ev = "step"
                     Out(<<"VERDICT", "C30", R.case, R.step,
                           R.res.ok /\ Persistent(t) = Persistent(ApplySeq(R.req.ops, cur, 1)),
                           [unparsable |-> FALSE, ok |-> R.res.ok, same |-> Persistent(t) = Persistent(cur)]>>)
+              \* C32: relations stay sets, the program has the effect of its statements
+              \* under the set model, and every write report carries the set model's count
+              /\ Has(R, "C32") =>
+                    Out(<<"VERDICT", "C32", R.case, R.step,
+                          /\ R.res.ok /\ NoDupObs(R.state)
+                          /\ Persistent(t) = Persistent(ApplySeq(R.req.ops, cur, 1))
+                          /\ Len(R.res.reports) = Len(R.req.ops)
+                          /\ RepOK(R.req.ops, R.res.reports, cur, 1),
+                          [ok |-> R.res.ok, nodup |-> NoDupObs(R.state),
+                           state |-> Persistent(t) = Persistent(ApplySeq(R.req.ops, cur, 1)),
+                           reports |-> R.res.reports,
+                           want |-> WantReports(R.req.ops, cur, 1)]>>)
+              \* C35: the returned rows are the requested slice of the same engine's
+              \* unsorted, unlimited answer (req.ref_text), sorted by the annotations
+              /\ Has(R, "C35") =>
+                    Out(<<"VERDICT", "C35", R.case, R.step,
+                          /\ R.res.ok /\ R.res.ref.ok
+                          /\ R.res.total = Cardinality(ToSetS(R.res.ref.rows))
+                          /\ IsSortedSlice(R.res.rows, ToSetS(R.res.ref.rows), R.req.keys, R.req.limit, R.req.offset,
+                                           R.req.srank),
+                          [ok |-> R.res.ok, total |-> R.res.total, full |-> Len(R.res.ref.rows), got |-> Len(R.res.rows)]>>)
+              \* C33: a declared schema is enforced (req.types = declared column types of req.rel)
+              /\ Has(R, "C33") =>
+                    LET g == R.req.kg
+                        pre == Rel(cur, g, R.req.rel)
+                        post == Rel(t, g, R.req.rel)
+                        batch == ToSetS(R.req.ops[1].tuples)
+                        rej == \E x \in batch : MustRejectT(x, R.req.types)
+                        acc == \A x \in batch : MustAcceptT(x, R.req.types)
+                    IN Out(<<"VERDICT", "C33", R.case, R.step,
+                             /\ rej => post = pre
+                             /\ acc => post = pre \cup batch
+                             /\ \A x \in post : ~MustRejectT(x, R.req.types),
+                             [rej |-> rej, acc |-> acc, unchanged |-> post = pre, applied |-> post = pre \cup batch,
+                              stored_bad |-> { x \in post : MustRejectT(x, R.req.types) }]>>)
+              \* C34: recursion through negation is refused, stratified sets are accepted.
+              \* req.pers = Seq([text, ast]) persistent rules submitted so far, req.sess =
+              \* Seq(ast) the request's own session rules
+              /\ Has(R, "C34") =>
+                    LET g == R.req.kg
+                        known == UNION { Get(t.rules, g, EmptyMap)[n] : n \in DOMAIN Get(t.rules, g, EmptyMap) }
+                        accepted == SelectSeq(R.req.pers, LAMBDA p : p.text \in known)
+                        P == [i \in 1..Len(accepted) |-> accepted[i].ast] \o R.req.sess
+                        allP == [i \in 1..Len(R.req.pers) |-> R.req.pers[i].ast] \o R.req.sess
+                    IN Out(<<"VERDICT", "C34", R.case, R.step,
+                             /\ ~NegStratified(P) => ~R.res.ok
+                             /\ NegStratified(allP) => (R.res.ok /\ Len(accepted) = Len(R.req.pers)),
+                             [strat |-> NegStratified(P), stratall |-> NegStratified(allP), ok |-> R.res.ok,
+                              accepted |-> Len(accepted), submitted |-> Len(R.req.pers)]>>)
               /\ Out(<<"STEP", R.case, R.step, NoDupObs(R.state)>>)
               /\ cur' = t
         /\ l' = l + 1
